@@ -5,11 +5,16 @@
    A sub-parser (SRT/WebVTT cue-text parser, SccLine.process, stl tf.to_model) is represented by an oracle list of
    [sub_result]s, one per invocation, so that the models can be run against the real readers (the harness records the
    result of every invocation) and so that the theorems can say "an internal outcome can only come from the oracle".
+   The two cue-text parsers are transcribed one level further, as cursor machines over the callback / token sequence that
+   html.parser / the WebVTT tokenizer deliver (tag names as integers: the code only compares them).
 
-     1. srt/reader.py  to_model            — [srt_run]      + the cursor of _TextParser  — [srt_cursor_run]
-     2. vtt/reader.py  to_model            — [vtt_run]      + the cursor of _TextCueParser — [vtt_cursor_run]
+     1. srt/reader.py  to_model            — [srt_run]      + _TextParser: self.parent, self.open_tags — [srt_cursor_run]
+     2. vtt/reader.py  to_model            — [vtt_run]      + _TextCueParser: self.parent, self.open_tags, ruby_rbc/rtc — [vtt_cursor_run]
      3. scc/line.py SccLine.from_str, scc/word.py SccWord.from_str, scc/reader.py loop — [scc_run]
      4. stl/datafile.py DataFile.__init__ / process_tti_block, stl/reader.py loop — [stl_run]
+
+   State of the code transcribed: repository commit cde187e plus the laboratory commits 654d3f5 (WebVTT end tags), cb365b8
+   (WebVTT percentage), 02aa1c0 (SRT <font color>), 7e042d3 (STL row count).
 
    No proofs here (Proofs/C18/*.v).  Character classes come from Gen/GuardTables.v (regenerated from CPython). *)
 From TT Require Import Base.Prelude Model.Outcome Gen.GuardTables.
@@ -190,6 +195,8 @@ Definition srt_calls (oracle : list sub_result) (content : text) : list bool :=
    that opened the spans between the paragraph and self.parent (repository commit 818e997) ----------------------- *)
 Inductive srt_cursor := CSpan (depth : nat) (* depth+1 spans below the paragraph *) | CP | CDiv | CBody | CNone.
 
+(* the first color attribute that has a value: absent (ColorNoValue: there is a color attribute, but none with a value), rejected
+   or accepted by utils.parse_color *)
 Inductive font_color := ColorAbsent | ColorNoValue | ColorBad | ColorGood.
 (* tag names are represented by integers: the harness numbers the distinct (lower-cased, as html.parser delivers them) names
    of one cue; the only operation of the code on them that matters here is `self.open_tags[-1] != tag` *)
@@ -227,9 +234,8 @@ Definition srt_cursor_step (attached : bool) (c : srt_cur) (e : srt_event) : srt
           (* self.parent = span; self.open_tags.append(tag) *)
           let c' := {| sc_parent := match sc_parent c with CSpan d => CSpan (S d) | _ => CSpan O end; sc_open := tag :: sc_open c |} in
           match f with
-          | Some ColorNoValue => inr (Internal TypeErr)                          (* parse_color(None): str.lower(None) *)
           | Some ColorBad => inr (FormatError ValueErr)                          (* parse_color raises ValueError("Bad Syntax") *)
-          | _ => inl c'
+          | _ => inl c'       (* `attr[0] == "color" and attr[1] is not None`: a color attribute without value is skipped (lab commit 02aa1c0) *)
           end
       end
   | EvEnd tag =>
@@ -254,10 +260,6 @@ Fixpoint srt_cursor_loop (attached : bool) (c : srt_cur) (es : list srt_event) :
 Definition srt_cursor_run (attached : bool) (es : list srt_event) : outcome :=
   srt_cursor_loop attached {| sc_parent := CP; sc_open := [] |} es.
 
-(* executable trigger of finding srt-font-color-without-value *)
-Definition srt_font_novalue (es : list srt_event) : bool :=
-  existsb (fun e => match e with EvStart _ (Some ColorNoValue) => true | _ => false end) es.
-
 (* ------------------------------------------------------------------------------------------------ 2. WebVTT reader *)
 (* _VTT_TS_RE.fullmatch:  (D{2,}:)?DD:DD.DDD *)
 Definition vtt_ts_ok (s : text) : bool :=
@@ -275,56 +277,16 @@ Definition vtt_ts_ok (s : text) : bool :=
 (* value of a decimal digit character (int()/float() accept every Nd digit) *)
 Definition digit_value (c : Z) : option Z :=
   match filter (fun z => (z <=? c) && (c <=? z + 9)) nd_zeros with z :: _ => Some (c - z) | [] => None end.
-Fixpoint digits_value (acc : Z) (s : text) : Z :=
-  match s with [] => acc | c :: r => digits_value (acc * 10 + match digit_value c with Some d => d | None => 0 end) r end.
-Fixpoint take_while (f : Z -> bool) (s : text) : text :=
-  match s with [] => [] | c :: r => if f c then c :: take_while f r else [] end.
-
-(* parse_vtt_pct: _VTT_PCT_RE = ( \d+ \.? \d* ) % as a fullmatch, then round(float(group 1)).
-   None = no match; Some true = float overflows to inf, round raises OverflowError; Some false = a percentage *)
-Definition vtt_pct (s : text) : option bool :=
-  let ip := take_while re_digit s in
-  match ip with
-  | [] => None
-  | _ =>
-      let r := drop_while re_digit s in
-      let r := match r with c :: r' => if c =? 46 then r' else r | [] => r end in
-      let r := drop_while re_digit r in
-      match r with
-      | [c] => if c =? 37 then Some (float_inf_threshold <=? digits_value 0 ip) else None
-      | _ => None
-      end
-  end.
-
-(* cue_settings = dict(filter(lambda x: len(x) == 2, [x.split(":") for x in cue_params[3:]])) ; .get(key) *)
-Definition setting_pair (x : text) : option (text * text) :=
-  match split_on (Z.eqb 58) x with [k; v] => Some (k, v) | _ => None end.
-Fixpoint lookup_last (k : text) (ps : list (text * text)) (acc : option text) : option text :=
-  match ps with [] => acc | (k', v) :: r => lookup_last k r (if text_eqb k k' then Some v else acc) end.
-Definition first_comma_part (v : text) : text :=
-  match split_on (Z.eqb 44) v with p :: _ => p | [] => [] end.
-
-Definition k_size : text := [115; 105; 122; 101].
-Definition k_line : text := [108; 105; 110; 101].
-Definition k_position : text := [112; 111; 115; 105; 116; 105; 111; 110].
-Definition pct_overflows (o : option text) (comma : bool) : bool :=
-  match o with
-  | None => false
-  | Some v => match vtt_pct (if comma then first_comma_part v else v) with Some true => true | _ => false end
-  end.
-(* does _get_or_make_region raise OverflowError on these settings?  (size, then line, then position are evaluated in this order;
-   all three paths raise the same error, so the order is immaterial for the outcome class) *)
-Definition settings_overflow (params : list text) : bool :=
-  let ps := flat_map (fun x => match setting_pair x with Some p => [p] | None => [] end) params in
-  pct_overflows (lookup_last k_size ps None) false
-  || pct_overflows (lookup_last k_line ps None) true
-  || pct_overflows (lookup_last k_position ps None) true.
+(* _get_or_make_region has no failure point left on any list of settings: parse_vtt_pct rejects a number that reads as float
+   infinity (lab commit cb365b8; round(inf) raised OverflowError before), parse_vtt_int is limited to 20 digits, every other
+   setting is compared with literals.  It is therefore not transcribed; the outcome-class correspondence (vtt_case) would show any
+   exception it raised as a disagreement. *)
 
 Definition s_note : text := [78; 79; 84; 69; 32].       (* "NOTE " *)
 Definition s_style : text := [83; 84; 89; 76; 69].      (* "STYLE" *)
 Definition s_arrow : text := [45; 45; 62].              (* "-->" *)
 
-Record vtt_view := { vv_blank : bool; vv_note : bool; vv_style : bool; vv_arrow : bool; vv_cue : bool; vv_overflow : bool }.
+Record vtt_view := { vv_blank : bool; vv_note : bool; vv_style : bool; vv_arrow : bool; vv_cue : bool }.
 Definition vtt_classify (l : text) : vtt_view :=
   let ps := split_ws l in
   let cue := match ps with
@@ -332,7 +294,7 @@ Definition vtt_classify (l : text) : vtt_view :=
              | _ => false
              end in
   {| vv_blank := is_blank l; vv_note := starts_with s_note l; vv_style := starts_with s_style l; vv_arrow := contains s_arrow l;
-     vv_cue := cue; vv_overflow := match ps with _ :: _ :: _ :: st => settings_overflow st | _ => false end |}.
+     vv_cue := cue |}.
 
 Inductive vtt_state := V_START | V_LOOKING | V_NOTE | V_STYLE | V_TEXT | V_TEXT_MORE.
 Record vtt_vars := { v_state : vtt_state; v_p : option bool; v_text_bound : bool; v_oracle : list sub_result; v_calls : list bool }.
@@ -370,7 +332,6 @@ Definition vtt_looking (v : vtt_vars) (l : vtt_view) : vtt_vars + outcome :=
   else if vv_style l then inl (vset V_STYLE v)
   else if negb (vv_arrow l) then inl v                                  (* cue identifier *)
   else if negb (vv_cue l) then inl v                                    (* LOGGER.warning; continue *)
-  else if vv_overflow l then inr (Internal OverflowErr)                 (* _get_or_make_region -> parse_vtt_pct -> round(inf) *)
   else inl {| v_state := V_TEXT; v_p := Some false (* current_p = model.P(doc) *); v_text_bound := true (* subtitle_text = "" *);
               v_oracle := v_oracle v; v_calls := v_calls v |}.
 
@@ -416,17 +377,17 @@ Fixpoint vtt_trace (v : vtt_vars) (items : list vtt_view) : list bool :=
 Definition vtt_calls (oracle : list sub_result) (content : text) : list bool :=
   vtt_trace (vtt_init oracle) (map vtt_classify (readlines content)).
 
-(* executable trigger of finding vtt-percentage-overflow *)
-Definition vtt_any_overflow (items : list vtt_view) : bool := existsb vv_overflow items.
-
 (* ---- the cursor of _TextCueParser ------------------------------------------------------------------------------- *)
 Inductive vkind := KSpan | KRuby | KRt | KP | KDiv | KBody.
-Inductive vtt_event := TStartRuby | TStartRt | TStartSpan | TTimestamp | TEnd | TData (breaks : nat).
+(* tag names are represented by integers (the harness numbers the distinct lower-cased names of one cue); which of the three
+   kinds a start tag is (tag.startswith("ruby"), tag.startswith("rt"), anything else) is decided by the harness *)
+Inductive vtt_event := TStartRuby (tag : Z) | TStartRt (tag : Z) | TStartSpan (tag : Z) | TTimestamp | TEnd (tag : Z) | TData (breaks : nat).
 
-(* cursor = path from self.parent up to the root ([] = None); ruby = the path at the open Ruby element while
-   self.ruby_rbc / self.ruby_rtc are not None.  An Rt sits on an Rtc below the Ruby; the Rtc never becomes the cursor,
-   so KRt is stored directly above KRuby and _handle_endtag's extra hop is the single pop below. *)
-Record vcur := { c_path : list vkind; c_ruby : option (list vkind) }.
+(* c_path = path from self.parent up to the root ([] = None); c_ruby = the path at the open Ruby element while
+   self.ruby_rbc / self.ruby_rtc are not None; c_open = self.open_tags, newest first: the name of every open tag with the path
+   of the element to return to when it is closed (lab commit 654d3f5).  An Rt sits on an Rtc below the Ruby; the Rtc never
+   becomes the cursor, so KRt is stored directly above KRuby. *)
+Record vcur := { c_path : list vkind; c_ruby : option (list vkind); c_open : list (Z * list vkind) }.
 
 (* parent.push_child(child) for the child kinds the parser creates: span, br, ruby *)
 Inductive child_kind := ChSpan | ChBr | ChRuby.
@@ -440,8 +401,8 @@ Definition push_result (parent : list vkind) (ch : child_kind) : option outcome 
   | KDiv :: _ | KBody :: _ => Some (Internal TypeErr)
   end.
 
-Fixpoint data_lines (path : list vkind) (i : nat) (n : nat) : option outcome :=
-  (* lines i .. of _handle_string; n = lines left *)
+Fixpoint data_lines (path : list vkind) (rbc : bool) (i : nat) (n : nat) : option outcome :=
+  (* lines i .. of _handle_string; n = lines left; rbc = self.ruby_rbc is not None *)
   match n with
   | O => None
   | S n' =>
@@ -450,15 +411,29 @@ Fixpoint data_lines (path : list vkind) (i : nat) (n : nat) : option outcome :=
       | None =>
           match path with
           | [] => Some (Internal AttributeErr)                          (* _make_span: self.parent.get_doc() *)
-          | KRuby :: _ => data_lines path (S i) n'                      (* rb.push_child(span); self.ruby_rbc.push_child(rb) *)
-          | _ => match push_result path ChSpan with Some o => Some o | None => data_lines path (S i) n' end
+          | KRuby :: _ => if rbc then data_lines path rbc (S i) n'      (* rb.push_child(span); self.ruby_rbc.push_child(rb) *)
+                          else Some (Internal AttributeErr)             (* None.push_child *)
+          | _ => match push_result path ChSpan with Some o => Some o | None => data_lines path rbc (S i) n' end
           end
       end
   end.
 
+Definition is_ruby_path (p : list vkind) : bool := match p with KRuby :: _ => true | _ => false end.
+Definition is_rt_path (p : list vkind) : bool := match p with KRt :: _ => true | _ => false end.
+
+(* one iteration of the loop of _handle_endtag: `if isinstance(self.parent, model.Ruby): self.ruby_rbc = self.ruby_rtc = None`;
+   `self.parent = self.open_tags.pop()[1]` *)
+Definition vtt_close (c : vcur) : vcur :=
+  match c_open c with
+  | [] => c                                                             (* not reached: the count is at most len(open_tags) *)
+  | (_, saved) :: rest => {| c_path := saved; c_ruby := if is_ruby_path (c_path c) then None else c_ruby c; c_open := rest |}
+  end.
+
 Definition vtt_cursor_step (c : vcur) (e : vtt_event) : vcur + outcome :=
+  (* every start tag: self.open_tags.append((tag, self.parent)) before anything else *)
+  let opened tag := (tag, c_path c) :: c_open c in
   match e with
-  | TStartRuby =>
+  | TStartRuby tag =>
       match c_ruby c with
       | Some _ => inr (Internal RuntimeErr)                             (* "Nested ruby tags are not allowed." *)
       | None =>
@@ -466,38 +441,45 @@ Definition vtt_cursor_step (c : vcur) (e : vtt_event) : vcur + outcome :=
           | [] => inr (Internal AttributeErr)
           | p => match push_result p ChRuby with
                  | Some o => inr o
-                 | None => inl {| c_path := KRuby :: p; c_ruby := Some (KRuby :: p) |}
+                 | None => inl {| c_path := KRuby :: p; c_ruby := Some (KRuby :: p); c_open := opened tag |}
                  end
           end
       end
-  | TStartRt =>
+  | TStartRt tag =>
       (* `if tag.startswith("rt") and self.ruby_rtc is not None`; otherwise handled like any other tag (commit 15db449) *)
       match c_ruby c with
       | Some rp =>
           match c_path c with
           | [] => inr (Internal AttributeErr)                           (* model.Rt(self.parent.get_doc()) *)
-          | _ => inl {| c_path := KRt :: rp; c_ruby := c_ruby c |}
+          | _ => inl {| c_path := KRt :: rp; c_ruby := c_ruby c; c_open := opened tag |}
           end
       | None =>
           match push_result (c_path c) ChSpan with
           | Some o => inr o
-          | None => inl {| c_path := KSpan :: c_path c; c_ruby := c_ruby c |}
+          | None => inl {| c_path := KSpan :: c_path c; c_ruby := c_ruby c; c_open := opened tag |}
           end
       end
-  | TStartSpan =>
+  | TStartSpan tag =>
       match push_result (c_path c) ChSpan with
       | Some o => inr o
-      | None => inl {| c_path := KSpan :: c_path c; c_ruby := c_ruby c |}
+      | None => inl {| c_path := KSpan :: c_path c; c_ruby := c_ruby c; c_open := opened tag |}
       end
   | TTimestamp => inl c          (* _handle_ts only records self.begin (commit 8eaaab8); self.paragraph is the cue's P, never None *)
-  | TEnd =>
-      match c_path c with
-      | [] => inr (Internal AttributeErr)                               (* None.parent() *)
-      | KRuby :: r => inl {| c_path := r; c_ruby := None |}
-      | _ :: r => inl {| c_path := r; c_ruby := c_ruby c |}
+  | TEnd tag =>
+      match c_open c with
+      | [] => inl c                                                     (* unmatched: warning, return *)
+      | (top, saved) :: rest =>
+          if top =? tag then inl (vtt_close c)
+          else match rest with
+               | (second, _) :: _ =>
+                   (* the end tag of a ruby element also closes its open <rt> *)
+                   if (second =? tag) && is_rt_path (c_path c) && is_ruby_path saved then inl (vtt_close (vtt_close c))
+                   else inl c
+               | [] => inl c
+               end
       end
   | TData breaks =>
-      match data_lines (c_path c) 0 (S breaks) with
+      match data_lines (c_path c) (match c_ruby c with Some _ => true | None => false end) 0 (S breaks) with
       | Some o => inr o
       | None => inl c
       end
@@ -509,19 +491,11 @@ Fixpoint vtt_cursor_loop (c : vcur) (es : list vtt_event) : outcome :=
   | e :: rest => match vtt_cursor_step c e with inr o => o | inl c' => vtt_cursor_loop c' rest end
   end.
 Definition vtt_cursor_run (attached : bool) (es : list vtt_event) : outcome :=
-  vtt_cursor_loop {| c_path := KP :: (if attached then [KDiv; KBody] else []); c_ruby := None |} es.
+  vtt_cursor_loop {| c_path := KP :: (if attached then [KDiv; KBody] else []); c_ruby := None; c_open := [] |} es.
 
-Fixpoint vtt_stray_from (open : nat) (es : list vtt_event) : bool :=
-  match es with
-  | [] => false
-  | TEnd :: r => match open with O => true | S k => vtt_stray_from k r end
-  | TData _ :: r | TTimestamp :: r => vtt_stray_from open r
-  | _ :: r => vtt_stray_from (S open) r
-  end.
-Definition vtt_stray_end (es : list vtt_event) : bool := vtt_stray_from O es.
 (* <rt> without an open <ruby> is an ordinary tag: only <ruby> itself leads to the structures of finding vtt-ruby-structure *)
 Definition vtt_has_ruby (es : list vtt_event) : bool :=
-  existsb (fun e => match e with TStartRuby => true | _ => false end) es.
+  existsb (fun e => match e with TStartRuby _ => true | _ => false end) es.
 
 (* ------------------------------------------------------------------------------------------------ 3. SCC reader *)
 Definition ascii_hex (c : Z) : bool :=
@@ -656,7 +630,8 @@ Record stl_vars := {
   t_fps : Z * Z;
   t_count : Z;                       (* tti_count *)
   t_offset : Z * Z;                  (* start_offset as numerator / denominator (seconds) *)
-  t_rows : option Z;                 (* max_row_count; None = attribute never assigned (cannot happen since repository commit 41b1329) *)
+  t_rows : option Z;                 (* max_row_count; None = attribute never assigned (cannot happen since repository commit 41b1329);
+                                        at least 1 since lab commit 7e042d3 *)
   t_teletext : bool;
   t_last_sn : option Z;
   t_have_p : bool;                   (* cur_p_element is not None *)
@@ -710,6 +685,8 @@ Definition stl_header (cfg : stl_cfg) (gsi : list Z) : stl_hdr + outcome :=
                             end
           | RowsInt n => if teletext then (Some 23, off) else (Some n, off)
           end in
+        (* `if self.max_row_count < 1: LOGGER.error(..); self.max_row_count = DEFAULT_TELETEXT_ROWS` (lab commit 7e042d3) *)
+        let rows := match rows with Some n => if n <? 1 then Some 23 else Some n | None => None end in
         inl {| h_fps := fps; h_count := count; h_offset := off; h_rows := rows; h_teletext := teletext |}
     end.
 
@@ -792,14 +769,4 @@ Definition stl_run (cfg : stl_cfg) (oracle : list sub_result) (file : list Z) : 
   match stl_init cfg (firstn 1024 file) oracle with
   | inr o => o
   | inl v => stl_loop v (stl_blocks file)
-  end.
-
-
-(* executable trigger of the recorded STL finding, on the GSI block [gsi = firstn 1024 file] *)
-(* stl-zero-row-count: open subtitles whose row count (GSI MNR under max_row_count = "MNR", or the configured integer) is 0 *)
-Definition trig_zero_rows (cfg : stl_cfg) (gsi : list Z) : bool :=
-  match cfg_rows cfg with
-  | RowsMNR => negb (gsi_teletext gsi) && match bytes_int (slice 253 2 gsi) with None => false | Some n => n =? 0 end
-  | RowsInt n => negb (gsi_teletext gsi) && (n =? 0)
-  | RowsNone => false
   end.
